@@ -574,6 +574,7 @@ func (c *StreamConn) Write(p []byte) (int, error) {
 }
 
 func (c *StreamConn) Close() error {
+	envPoint()
 	if c.closed {
 		return &net.OpError{Op: "close", Net: "tcp", Source: c.local, Addr: c.remote, Err: net.ErrClosed}
 	}
